@@ -149,6 +149,7 @@ impl BlockWriter {
         }
 
         let mut offset: usize = 0;
+        let mut stalled = false;
         loop {
             let size = self.decoder.as_mut().unwrap().write(&pkt[offset..])?;
             self.decoder_read(writer, now)?;
@@ -156,16 +157,20 @@ impl BlockWriter {
             if offset == pkt.len() {
                 break;
             }
+
+            if size == 0 && stalled {
+                // The input buffer is full and the decoder does not consume it anymore
+                return Err(FluteError::new(
+                    "Decoder does not consume its input, data after the end of the compressed stream ?",
+                ));
+            }
+            stalled = size == 0;
         }
         Ok(())
     }
 
     fn decoder_read(&mut self, writer: &dyn ObjectWriter, now: SystemTime) -> Result<()> {
         let decoder = self.decoder.as_mut().unwrap();
-
-        if self.content_length_left == Some(0) {
-            return Ok(());
-        }
 
         loop {
             let size = match decoder.read(&mut self.buffer) {
@@ -178,6 +183,12 @@ impl BlockWriter {
                 return Ok(());
             }
 
+            if self.content_length_left == Some(0) {
+                // The announced content has been written,
+                // keep draining the decoder (trailer) so that its input buffer never fills up
+                continue;
+            }
+
             if let Some(ctx) = self.md5_context.as_mut() {
                 ctx.consume(&self.buffer[..size])
             }
@@ -186,9 +197,6 @@ impl BlockWriter {
 
             if let Some(content_length_left) = self.content_length_left.as_mut() {
                 *content_length_left = content_length_left.saturating_sub(size);
-                if *content_length_left == 0 {
-                    return Ok(());
-                }
             }
         }
     }
